@@ -7,7 +7,9 @@ ENTRY = dict(
         corr_files=["Corr/C06Corr.v"],
         theorems=["c06_E_def", "c06_estimator", "c06_v1_v2", "c06_split_pack", "c06_from_bytes", "c06_count_refused",
                   "c06_sign_values", "c06_keys", "c06_keys_same_result", "c06_total", "c06_measured_qubits", "c06_mask_bits", "c06_lookup",
-                  "c06_letters_shape", "c06_oracle_contract_inhabited",
+                  "c06_letters_shape", "c06_keys_parser", "c06_estimator_parser", "c06_v2_own_shots", "c06_public_estimator",
+                  "c06_grouping_bridge", "c06_grouping_shape", "c06_estimator_grouping", "c06_v1_v2_estimator_grouping",
+                  "c06_oracle_contract_inhabited",
                   "c06_types_refused", "c06_keyset_refused", "c06_phase_refused", "c06_public_map", "c06_public_list",
                   "c06_facts"],
         allowed_axioms=[],
@@ -23,7 +25,14 @@ ENTRY = dict(
                    "type, key-set and phase mismatches are refused; every processed value is +-1; int / binary / 0b / 0x keys are sent "
                    "to the right radix and equivalent keys give the same result. Closed under the global context. The model is run "
                    "against the implementation on ~4000 generated cases per quick run with exact rational comparison (within 1e-9 on the "
-                   "non-power-of-two-shots stream); c06_total: the loops never crash and refuse only for a count mismatch or a rejected key.",
+                   "non-power-of-two-shots stream); c06_total: the loops never crash and refuse only for a count mismatch or a rejected key. "
+                   "Extension: c06_grouping_bridge proves that the groups / measured-bit counts / bitmasks / lookup produced by C11's model of "
+                   "ObservableCollection (Model/Grouping.v: most_general_observable, __post_init__, lookup loop, for ANY answer of the "
+                   "group_commuting oracle) are exactly the partition the C06 model uses, so c06_estimator_grouping and "
+                   "c06_v1_v2_estimator_grouping state 'value = defined estimator' and 'V1 = V2' for the masks the grouping code really "
+                   "produces with the executable key parser pyint0_ref, leaving only: count match, every key accepted by the parser, "
+                   "observable values fit their register. c06_v2_own_shots: the V2 average divides by the shot count of the pub being "
+                   "processed. c06_public_estimator lifts the estimator theorem through the public dict-form wrapper.",
         level_note=STD_NOTE + "No axioms.",
         assumptions=[
             "Model/Reconstruct.v is a hand-written model of cutting_reconstruction.py (+ bit_count, _get_pauli_indices' length); it is "
@@ -38,9 +47,15 @@ ENTRY = dict(
             "group, so every lookup list has exactly one location (monitor lookup_has_exactly_one_location) and np.mean over locations "
             "is the identity on all reachable inputs; the 'mean over locations' clause is proved for the model (any number of "
             "locations) but compared with the implementation only for one location",
-            "Python's int(s, 0) is an oracle (Section variable pyint0) with the contract 0b+binary digits / 0x+hex digits -> positional "
-            "value; the reference instance pyint0_ref is proved to satisfy the contract and is compared with int(s, 0) on every "
-            "generated string (strings without sign, underscore or non-space white space)",
+            "Python's int(s, 0): the general theorems keep it as an oracle (Section variable pyint0) with a contract, but "
+            "c06_keys_parser / c06_estimator_parser / c06_estimator_grouping / c06_v1_v2_estimator_grouping instantiate it with the "
+            "executable parser pyint0_ref and need NO contract hypothesis; what remains assumed is that pyint0_ref agrees with "
+            "Python's int(s, 0) on strings without sign, underscore or non-space white space (compared on every generated string, "
+            "stream pyint0)",
+            "the C06 cone now contains C11's Model/Grouping.v + Proofs/GroupingP.v (bridge); PauliList.unique()/group_commuting stay "
+            "oracles of that model, but the C06 theorems hold for every oracle answer for which the collection is built (no use of "
+            "the grouping contract); the composition is tied to /repo by the stream collection_part (C11's model run on the real "
+            "groups, its masks / lookup compared with the real pauli_bitmasks / lookup)",
             "OBSERVATION: _outcome_to_int treats a digit string whose second character is 0/1 as binary and any other as int(s,0): "
             "'10' -> 2 but '12' -> 12, '2' -> ValueError; such undocumented key shapes are outside the quantifier (judge silent, model = code)",
             "outcome keys are non-negative ints or str; quasi-probabilities, coefficients and 1/shots are exact rationals (binary64 "
